@@ -195,4 +195,21 @@ PROPS["C01"] = dict(
     assumptions=["transaction hashes do not collide with the hashes of outpoints they spend", "batch view = committed store + pending writes (C17)"],
 )
 
+PROPS["C02"] = dict(
+    lean_modules=["QuaiVerif.Props.C02"],
+    areas=[dict(name="evm", n_quick=3000, n_thorough=40000, seeds_thorough=3, n_search=8000)],
+    rule="(shared area with C05) the vtree cases: a tree (depth <= 3, up to 12 contracts with random balances) of CALL / CALLCODE with values 0-400, DELEGATECALL, "
+         "STATICCALL, ETX emissions, SELFDESTRUCT to any account incl. itself, frames ending in STOP or REVERT, both sides of the self-destruct refund fork, run "
+         "either through EVM.Call or as a whole transaction through core.ApplyMessage with gas purchase and refund; every account balance and the emitted ETXs compared",
+    level_text="'Sum of balances after + value carried by emitted ETXs + value destroyed = sum before + state-rent refunds credited' is a Lean theorem for every frame "
+               "tree (mutual structural induction over the value skeleton), with its corollary 'never more than before plus refunds' and 'a frame that fails or "
+               "reaches REVERT restores the entry state exactly'; the skeleton is run against the real interpreter on generated bytecode and the gas charge of "
+               "ApplyMessage is checked to lie between gasUsed x price and gasLimit x price.",
+    level_note="PARTIAL / trusted: the theorem is about the value skeleton (CanTransfer / Transfer / debit-for-ETX / suicide move / refund / frame revert); that the "
+               "interpreter's other opcodes write no balance is established only by the T2 balance comparison. Gas accounting (buyGas / refundGas / intrinsic gas) is "
+               "checked by T3 bounds on the real ApplyMessage, not modelled; inbound-ETX execution (value staged on the zero address), CREATE / CREATE2, precompiles and "
+               "the lockup contract are not in the generated programs yet.",
+    assumptions=["every account a program touches is in the finite universe summed over", "enough gas at every frame (harness budgets)"],
+)
+
 NOT_APPLICABLE = {}
